@@ -114,7 +114,7 @@ Proof.
   intros g G f.
   assert (F1 : fR 1%float = 1) by fR_compute.
   assert (Fc : forall x, f x = CFin 1%float \/ f x = CInf -> True) by auto.
-  assert (Hpt : forall x : PrimFloat.float, (PrimFloat.ltb 16 x || PrimFloat.ltb x (-16))%bool = false -> pt_ok f G fR fR okf x (fR x)).
+  assert (Hpt : forall x : PrimFloat.float, (PrimFloat.leb (-16) x && PrimFloat.leb x 16)%bool = true -> pt_ok f G fR fR okf x (fR x)).
   { intros x Hx.
     assert (Ef : f x = CFin 1%float) by (unfold f, bounded; rewrite Hx; reflexivity).
     unfold pt_ok. rewrite Ef. split; [reflexivity | split].
@@ -128,7 +128,7 @@ Proof.
   rewrite Ei. unfold step_ok.
   cbn [s0 s1 vp vc float_ops real_ops op_centroid op_reflect op_expand op_contract op_shrink].
   assert (F2 : fR 2%float = 2) by fR_compute.
-  assert (Hp : forall (x : PrimFloat.float) (v : R), fR x = v -> (PrimFloat.ltb 16 x || PrimFloat.ltb x (-16))%bool = false -> pt_ok f G fR fR okf x v).
+  assert (Hp : forall (x : PrimFloat.float) (v : R), fR x = v -> (PrimFloat.leb (-16) x && PrimFloat.leb x 16)%bool = true -> pt_ok f G fR fR okf x v).
   { intros x v Hv Hx. destruct (Hpt x Hx) as (_ & H2 & H3). unfold pt_ok. rewrite <- Hv. repeat split; assumption. }
   rewrite F1, F2.
   repeat split.
